@@ -17,9 +17,11 @@ MANIFEST = dict(
     note="the visibility clause of lower_wf rests on the operations' guard that looked-up cids are in the current frame (that is the "
          "resolver's contract, C10); the id discipline proper (freshness, single definition, declaration order, shape) is proved "
          "unconditionally. The model of the Lowerer is a model: it is tied to lowering.rs only through the monitor on real RQ. "
-         "The unchanged tree violates the scope clause in three listed ways, all caused by the Flattener's persistent `sort` "
-         "(stale-sort-after-select, stale-sort-after-aggregate, sort-leaks-into-subpipeline; theorem emitted_rq_wf_counterexample "
-         "holds the witnesses); every other emitted RQ must pass wfRq, and the first two classes must pass the relaxed wfRqLax.",
+         "The tree violates the scope clause in listed ways caused by the Flattener's persistent `sort` "
+         "(stale-sort-after-select, stale-sort-after-aggregate; theorem emitted_rq_wf_counterexample holds the witnesses; a third one, "
+         "sort-leaks-into-subpipeline, was repaired by fix 147decc - leaked_sort_document_rejected keeps the old document as a "
+         "regression witness and the check requires the compiler not to emit it any more); every other emitted RQ must pass wfRq, and "
+         "the two stale-sort classes must pass the relaxed wfRqLax.",
     technique="Lean 4 invariant proof over a state machine + executable predicate as monitor on real RQ JSON + mutation testing", ref="4/C16")
 
 DECL = ("module default_db {\n let t <[{a = int, b = int, c = text}]>\n let u <[{a = int, d = int, e = text}]>\n"
@@ -635,7 +637,7 @@ def run(ctx):
     br = vlib.standard_proof_obligations(ctx, ["PrqlModel.Props.C16"], [],
         required_theorems=["lower_wf", "lower_inv", "lower_cid_above", "lower_mapping_defined", "wf_enables_backend", "wfRq_iff",
                            "wf_append_transform", "scope_visible_subset_defs", "wf_defined_before_use", "wf_rejects_invisible",
-                           "emitted_rq_wf_counterexample"])
+                           "emitted_rq_wf_counterexample", "leaked_sort_document_rejected"])
     ctx.rule = ("the RQ JSON the real resolver emits (harness op rq) for every accepted program of: the relational generator in the profiles "
                 "safe / full / undeclared (fixed-seed corpus + VERIF_SEED tail), a hand-written corpus (nested group/window, joins of "
                 "sub-pipelines, loop, append, several references to one let-table, relation literals, from_text, s-string tables, wildcards), "
@@ -651,14 +653,14 @@ def run(ctx):
     # tie of theorem emitted_rq_wf_counterexample: the two transcribed documents are what the compiler emits today
     wit = [(DECL + "from t | sort b | select {a} | take 2", "bad not-visible 1; lax ok"),
            (DECL + "from t | sort b | aggregate {s = sum a} | derive {r = row_number this}", "bad not-visible 1; lax ok"),
-           (DECL + "from t | sort {b} | append (from t | take 2..3)", "bad not-visible 1; lax bad not-visible 1"),
-           (DECL + "from t | group {b} (sort {a} | take 2 | select {a, c})", "bad not-visible 1; lax bad not-visible 1")]
+           (DECL + "from t | group {b} (sort {a} | take 2 | select {a, c})", "bad not-visible 1; lax bad not-visible 1"),
+           # repaired by 147decc (leaked_sort_document_rejected): must be well-formed now
+           (DECL + "from t | sort {b} | append (from t | take 2..3)", "ok")]
     wa = vh_batch([{"op": "rq", "prql": p} for p, _ in wit])
     wm = drv_batch([f"wfrq\t{enc(json.dumps(a.get('rq'), ensure_ascii=True))}" for a in wa])
-    same = all(m == e for m, (_, e) in zip(wm, wit))
-    wellformed_now = all(m.startswith("ok") for m in wm)
-    ctx.obligation("tie: witnesses of emitted_rq_wf_counterexample reproduce on the real compiler (or the defect is repaired)",
-                   same or wellformed_now, str(wm))
+    each = all(m == e or m.startswith("ok") for m, (_, e) in zip(wm, wit))
+    ctx.obligation("tie: each witness of emitted_rq_wf_counterexample reproduces on the real compiler or is repaired; the repaired witness stays repaired",
+                   each, str(wm))
     corpus = [("corpus", (DECL + p[2:]) if p.startswith("D:") else p) for p in CORPUS]
     nbad += monitor(ctx, "corpus", corpus, fixed, 1.0)
     nbad += monitor(ctx, "repo-queries", query_files(), fixed, 1.0)
